@@ -20,6 +20,9 @@ Alpha == { Plain("foo"), Plain("o"), Plain("x"), Plain("P5"), Plain("1230"),
 NoWord == [c |-> "none"]
 Kinds == { <<"-", None>>, <<"o", None>>, <<"o", "P0">>, <<"x", "P9">>, <<"~", None>>, <<"<", "P1">>, <<">", None>> }
 Conts == { <<>>,
+           << [k |-> "text", ind |-> 2, trail |-> 2, w |-> <<Plain("spaced"), Plain("line")>>],
+              [k |-> "ws", ind |-> 3, w |-> <<>>],
+              [k |-> "bullet", ind |-> 2, mark |-> "*", w |-> <<Plain("after"), Plain("blank")>>] >>,
            << [k |-> "text", ind |-> 2, w |-> <<Plain("more"), Tag("contexts", "cx2"), Plain("text")>>] >>,
            << [k |-> "pbullet", ind |-> 2, mark |-> "*", key |-> "bk", w |-> <<Plain("bv"), Plain("bw")>>],
               [k |-> "bullet",  ind |-> 2, mark |-> "*", w |-> <<Plain("plain"), Plain("bullet")>>] >> }
